@@ -2,6 +2,8 @@
 
 package cacheutil
 
+import "sort"
+
 // Export shim for the C12 harness (package fs/layer cannot reach the unexported fields of
 // TTLCache).  Injected with `go build -overlay`, never committed to the repository.
 
@@ -18,4 +20,27 @@ func (c *TTLCache) VerifC12Has(key string) bool {
 	defer c.mu.Unlock()
 	_, ok := c.m[key]
 	return ok
+}
+
+// VerifC12Keys returns the keys currently cached, sorted (no reference is taken).
+func (c *TTLCache) VerifC12Keys() []string {
+	c.mu.Lock()
+	defer c.mu.Unlock()
+	out := make([]string, 0, len(c.m))
+	for k := range c.m {
+		out = append(out, k)
+	}
+	sort.Strings(out)
+	return out
+}
+
+// VerifC12Peek returns the value cached under key without taking a reference.
+func (c *TTLCache) VerifC12Peek(key string) (any, bool) {
+	c.mu.Lock()
+	defer c.mu.Unlock()
+	rc, ok := c.m[key]
+	if !ok {
+		return nil, false
+	}
+	return rc.v, true
 }
